@@ -51,6 +51,9 @@ class Spec:
             return None
         if k == "Adt" and not n.get("fs"):
             return ("enum", n.get("v"))
+        if k == "Adt" and n.get("v") and "base" not in n and (self.F.adts.get(n.get("adt"), {}).get("variants") and len(self.F.adts[n["adt"]]["variants"]) > 1 or n.get("adt", "").endswith(("option::Option", "result::Result"))):
+            # a variant with payload: only the variant is known (never compared with ==, see below)
+            return ("enum", n.get("v"), "payload")
         if k == "Tuple":
             return ("tuple", [self.cev(e, env, depth) for e in n["es"]])
         if k == "Unary" and n.get("o") == "Not":
@@ -72,7 +75,7 @@ class Spec:
         if (k == "Binary" and n.get("o") in ("Eq", "Ne")) or (k == "Call" and n.get("n") in ("eq", "ne") and len(n.get("a", [])) == 2):
             a, b = (n["l"], n["r"]) if k == "Binary" else (n["a"][0], n["a"][1])
             ca, cb = self.cev(a, env, depth), self.cev(b, env, depth)
-            if ca and cb and ca[0] == cb[0] and ca[0] in ("enum", "bool"):
+            if ca and cb and ca[0] == cb[0] and ca[0] in ("enum", "bool") and len(ca) == 2 and len(cb) == 2:
                 same = ca == cb
                 is_eq = (n.get("o") == "Eq") if k == "Binary" else (n.get("n") == "eq")
                 return ("bool", same == is_eq)
@@ -232,7 +235,11 @@ class Spec:
             return None
         if k == "Const":
             if c[0] == "bool":
-                return str(p.get("v")).lower() == str(c[1]).lower()
+                v = str(p.get("v")).lower()
+                if v in ("true", "1"):
+                    return c[1] is True
+                if v in ("false", "0"):
+                    return c[1] is False
             return None
         if k == "Leaf" and c[0] == "tuple":
             res = True
